@@ -211,6 +211,19 @@ def d_activation(ctx):
         ctx.check("C06.d.activated-writers", rel, f, first_line(n), ok,
                   ("allowed writer: " + ACTIVATED_WRITERS[f]) if ok else
                   "`activated` is written outside the start/deactivate code paths: the activation reference count no longer reflects the running activators", line=n.lineno)
+    # one release per activation: every increment of the activation count registers the activated instance,
+    # unconditionally, in the activator's child list (deactivation releases one count per child entry)
+    for rel, f, n in writers:
+        v = n.value if isinstance(n, ast.Assign) else None
+        if v is not None and isinstance(v, ast.BinOp) and isinstance(v.op, ast.Add) and src(v.right) == "1":
+            inst = src(n.targets[0].value)
+            blk = _block_of(n) or []
+            reg = [s for s in blk if isinstance(s, ast.Expr) and isinstance(s.value, ast.Call) and isinstance(s.value.func, ast.Attribute) and s.value.func.attr == "append"
+                   and src(s.value.func.value).endswith(".child_flow_uids") and [src(a) for a in s.value.args] == ["%s.uid" % inst]]
+            ctx.check("C06.d.activation-pairing", rel, f, first_line(n), len(reg) == 1,
+                      "each additional activation of `%s` adds exactly one entry for it to the activator's child_flow_uids (one release per activation when the activator ends)" % inst if len(reg) == 1 else
+                      "the activation count of `%s` is incremented without an unconditional child_flow_uids entry for the activator: when the activator ends only some of its activations are released and the activated flow keeps running after its last activator ended" % inst,
+                      line=n.lineno)
     # immediate-finish guard in _advance_head_front: an activated flow that finishes without ever waiting is not restarted
     t = ctx.tree.ast(SM)
     fn = find_function(t, "_advance_head_front")
